@@ -35,6 +35,14 @@ PROGRAMS = {
     "same-payload-twice": ("const x = await order('a'); const y = await order('a'); x + y", {}),
     "object-payload": ("const r = await order({kind: 'read', path: ['x', 1]}); typeof r", {"payloads": ['o:{"kind":"read","path":["x",1]}'] * 3, "twin": False}),
     "conditional-order": ("const a = await order('a'); let r = a; if (a === 'v:s:a') { r += await order('b'); } r", {}),
+    "markers-loop-3": ("const m = []; for (const k of ['a', 'b', 'c']) { m.push(order(k)); } const x = await m[0]; const y = await m[1]; const z = await m[2]; x + y + z", {}),
+    "markers-reverse": ("const m = [order('a'), order('b'), order('c')]; const z = await m[2]; const y = await m[1]; const x = await m[0]; x + y + z", {}),
+    "markers-then-all": ("const m = [order('a'), order('b')]; const first = await m[0]; const rest = await Promise.all(m); first + rest.join()", {}),
+    "markers-held-over-another-await": ("const pa = order('a'); const pb = order('b'); const z = await Promise.resolve('z'); const c = await order('c'); const b = await pb; const a = await pa; a + b + c + z", {}),
+    "markers-in-callee": ("function issue(){ return [order('a'), order('b')]; } async function take(m, i){ return await m[i]; } const m = issue(); const y = await take(m, 1); const x = await take(m, 0); x + y", {}),
+    "markers-from-callback-3": ("const m = ['a', 'b', 'c'].map(order); const x = await m[0]; const y = await m[1]; const z = await m[2]; x + y + z", {}),
+    "markers-from-callback-reverse": ("const m = ['a', 'b', 'c'].map(order); const z = await m[2]; const y = await m[1]; const x = await m[0]; x + y + z", {}),
+    "markers-from-callback-then-all": ("const m = Array.from(['a', 'b'], order); const first = await m[0]; const rest = await Promise.all(m); first + rest.join()", {}),
     "order-in-callback": ("let r; try { r = [1, 2].map(x => order('a')); r = 'mapped:' + r.length; } catch (e) { r = 'C:' + (e && e.name); } r", {"twin": False, "order_dependent": True}),
     "cancel-after-race": ("const r = await Promise.race([order('a'), order('b')]); __cancelOrder__(2); __cancelOrder__(1); r", {"order_dependent": True, "twin": False}),
     "cancel-unknown": ("__cancelOrder__(42); const a = await order('a'); a", {"twin": False}),
